@@ -286,6 +286,15 @@ func run(c *core.Ctx) error {
 		}
 		progs = append(progs, p)
 	}
+	if limit := 700; len(progs) > limit {
+		// every program costs one `go build` of the generated package (3-10 s): the thorough tier takes a seeded
+		// sample so that it ends within about 20 minutes
+		var pick []M
+		for _, i := range c.SampleIdx(len(progs), limit) {
+			pick = append(pick, progs[i])
+		}
+		progs = pick
+	}
 	MaxSteps = 20000
 	batch := 1
 	c.Logf("instance: %d programs in the Go backend's subset", len(progs))
